@@ -737,11 +737,19 @@ impl Value {
                             ctx.add_variable_from_value(&comprehension.accu_var, accu);
                         }
                     }
-                    t => todo!("Support {t:?}"),
+                    t => {
+                        return Err(ExecutionError::UnexpectedType {
+                            got: t.type_of().to_string(),
+                            want: "list or map".to_string(),
+                        })
+                    }
                 }
                 Value::resolve(comprehension.result.deref(), &ctx)
             }
-            Expr::Struct(_) => todo!("Support structs!"),
+            Expr::Struct(s) => Err(ExecutionError::function_error(
+                &s.type_name,
+                "message construction is not supported",
+            )),
             Expr::Unspecified => panic!("Can't evaluate Unspecified Expr"),
         }
     }
